@@ -158,6 +158,9 @@ package queueing
 //@   ensures result.width == width && result.numStages == numStages && len(result.stages) == 0
 //@   label C15.new.wf
 //@   ensures 0 <= width && width <= 1<<30 && 1 <= numStages && numStages <= 1<<30 ==> pipeWF(result) && dwellOK(result)
+//@   label C15.new.nil
+//@   ensures ref(result.stages) == 0
+//@   assigns nothing
 
 //@ fn (*Pipeline[T]).Clear
 //@   property C15
